@@ -85,22 +85,22 @@ Proof.
 Qed.
 Print Assumptions C07_st_shards_partition.
 
-(* ... and limit, for tensors of positive size (see C07_st_zero_then_big for the zero-size corner). *)
+(* ... and limit, for all sizes (zero-size tensors included, since fix a217c9b) ... *)
 Theorem C07_st_shard_limit :
-  forall (A : Type) (size : A -> Z) ts m, 0 <= m -> Forall (fun t => 0 < size t) ts ->
+  forall (A : Type) (size : A -> Z) ts m, 0 <= m ->
   Forall (fun s => total size s <= m \/ (length s <= 1)%nat) (st_shard size ts (Some m)).
 Proof.
-  intros A size ts m Hm Hts. simpl. apply st_shard_go_limit; [assumption | constructor | reflexivity |].
+  intros A size ts m Hm. simpl. apply st_shard_go_limit; [reflexivity|].
   left. simpl. exact Hm.
 Qed.
 Print Assumptions C07_st_shard_limit.
 
-(* Corner of the model (and of the code: `current_shard_size > 0` instead of "shard non-empty"):
-   a zero-size tensor followed by an oversized one share a shard. *)
-Theorem C07_st_zero_then_big :
-  st_shard (fun x : Z => x) [0; 10] (Some 5) = [[0; 10]].
-Proof. reflexivity. Qed.
-Print Assumptions C07_st_zero_then_big.
+(* ... and no shard is empty. *)
+Theorem C07_st_shards_nonempty :
+  forall (A : Type) (size : A -> Z) ts m, ts <> [] ->
+  Forall (fun s => s <> []) (st_shard size ts (Some m)).
+Proof. intros. simpl. apply st_shard_go_nonempty. right. assumption. Qed.
+Print Assumptions C07_st_shards_nonempty.
 
 (* Read-back: when the ranges are pairwise disjoint, after all writes (in ANY order, i.e. any
    serial or concurrent completion order) each range holds exactly its tensor's bytes. *)
